@@ -216,6 +216,36 @@ def history_check(rec, st, depth):
                 rec.outcome("history")
 
 
+PREFIXED_TEXTS = ["sc:Item/Foo/Red", "sc:Item/Foo/Bar/Red, sc:Blue", "(sc:Red, sc:Item/Zzq/Blue/Green)", "sc:Item/Zzq/Qqz/Red/Blue",
+                  "sc:Label/a$b, sc:Item/Foo/Red", "sc:Zzqunknown, sc:Red", "xx:Red, sc:Item/A/B/Red", "sc:Red/Blue"]
+
+
+def prefixed_strings(rec):
+    """The same offset rules for a schema held under a namespace prefix (the prefix is part of the text, once)."""
+    from hed import load_schema_version
+    from hed.models.hed_string import HedString
+    from hed.errors.error_reporter import ErrorHandler
+    from hed.errors.error_types import ErrorContext
+    from hed.validator import HedValidator
+    schema = load_schema_version("sc:8.3.0")
+    validator = HedValidator(schema)
+    for text in PREFIXED_TEXTS:
+        for warn in (True, False):
+            rec.n("evaluations")
+            rec.n("distinct_nontrivial")
+            try:
+                hs = HedString(text, schema)
+                eh = ErrorHandler(check_for_warnings=warn)
+                eh.push_error_context(ErrorContext.HED_STRING, hs)
+                issues = validator.validate(hs, allow_placeholders=False, error_handler=eh)
+            except Exception as e:
+                rec.violation("C12:string:raises:" + type(e).__name__, text=text, error=repr(e)[:200])
+                continue
+            for i in issues:
+                wellformed(rec, i, "string", text, {"text": text, "warnings": warn, "schema": "sc:8.3.0"})
+    rec.outcome("prefixed-strings")
+
+
 def worker_strings(rec, shard, nshards, seed):
     from hed.models.hed_string import HedString
     from hed.errors.error_reporter import ErrorHandler
@@ -226,6 +256,8 @@ def worker_strings(rec, shard, nshards, seed):
         planted_check(rec, st)
     if shard == 1 % nshards:
         history_check(rec, st, 3)
+    if shard == 2 % nshards:
+        prefixed_strings(rec)
     for ci in core.shard_order(len(cases), shard, nshards, seed):
         text, phs = cases[ci]
         for ph in phs:
